@@ -196,6 +196,8 @@ def compile_sig(case, script, suffix=''):
   """signature of a 'valid program not compiled' violation; the one recorded defect of this kind (finding F26) gets a narrow signature"""
   if script[1] == 'RuleCompileException' and 'circular dependency of' in script[2] and any(in_list_mentions_own_element(r.body or ()) for r in case.program.rules()):
     return 'F26-in-list-mentioning-its-own-element-ahead-of-the-binding-literal'
+  if case.family == 'INJ-RECORD-PATTERN' and script[1] == 'RuleCompileException' and 'Found no way to assign variables' in script[2]:
+    return 'F47-record-pattern-inside-a-predicate-injected-twice'
   return 'compile-%s/%s%s' % (script[1], case.family, suffix)
 
 
